@@ -76,7 +76,35 @@ def run_config(cf):
         kw['left'] = np.nan
         kw['right'] = np.nan
     obs = []
-    for p in cf['probes']:
+    if cf.get('arr'):
+        # one call with the whole (possibly 2-D) array of query values
+        import io
+        import contextlib
+        err = io.StringIO()
+        vals = np.array([float(p) for p in cf['probes']])
+        if cf['arr'] == '2d' and vals.size % 2 == 0:
+            vals = vals.reshape(2, -1)
+        with warnings.catch_warnings(record=True) as wl, \
+                contextlib.redirect_stderr(err):
+            warnings.simplefilter('always')
+            try:
+                with np.errstate(all='ignore'):
+                    r = np.ma.asarray(f.val2idx('x', vals, **kw))
+                ok = r.shape == vals.shape
+                r = r.ravel()
+                ms = np.ma.getmaskarray(r)
+                obl = [{'k': 'masked', 'i': 0} if ms[q] else
+                       {'k': 'idx', 'i': int(np.ma.getdata(r)[q])}
+                       for q in range(r.size)] if ok else \
+                    [{'k': 'raised', 'i': 0, 'exc': 'shape'}] * vals.size
+            except Exception as ex:
+                obl = [{'k': 'raised', 'i': 0,
+                        'exc': type(ex).__name__}] * vals.size
+            w = any('out of bounds' in str(x.message).lower() for x in wl) \
+                or 'out of bounds' in err.getvalue().lower()
+        for p, ob in zip(cf['probes'], obl):
+            obs.append({'v': int(p), 'ob': ob, 'w': bool(w)})
+    for p in ([] if cf.get('arr') else cf['probes']):
         import io
         import contextlib
         err = io.StringIO()
@@ -195,6 +223,29 @@ def run(tier):
         ps = set(vals) | set(e) | {x + 1 for x in e} | {x - 1 for x in e} | \
             {min(e) - 40, max(e) + 40}
         cf['probes'] = sorted(ps)
+        extra.append(cf)
+    # array queries on longer coordinates: values repeated within one call,
+    # also values that are no coordinate value, 1-D and 2-D query arrays
+    for i in range(250 if tier == 'quick' else 2500):
+        n = rnd.randint(12, 30)
+        vals = sorted(rnd.sample(range(0, 400, 4), n))
+        if rnd.random() < 0.5:
+            vals = vals[::-1]
+        e = [vals[0] - (vals[1] - vals[0]) // 2] + \
+            [(a + b) // 2 for a, b in zip(vals[:-1], vals[1:])] + \
+            [vals[-1] + (vals[-1] - vals[-2]) // 2]
+        nan = rnd.random() < 0.5
+        cf = {'c': vals, 'rep': rnd.choice(['none', 'edges', 'nx2']), 'e': e,
+              'method': rnd.choice(['nearest', 'bounds', 'exact', 'exact']),
+              'clean': 'mask' if nan else rnd.choice(['none', 'mask']),
+              'bnd': rnd.choice(['ignore', 'warn']), 'nan': nan,
+              'arr': rnd.choice(['1d', '2d'])}
+        ps = [rnd.choice(vals) for _ in range(2)] + \
+            [rnd.choice(vals) + rnd.choice([1, 2, -1]) for _ in range(2)] + \
+            [min(e) - 40, max(e) + 40, rnd.choice(e)]
+        ps = ps + [rnd.choice(ps) for _ in range(rnd.randint(1, 3))]
+        rnd.shuffle(ps)
+        cf['probes'] = ps
         extra.append(cf)
     for cf in cfgs + extra:
         cf['kind'] = 'val'
